@@ -41,6 +41,27 @@ theorem empty_prefix_matches_all (path : Bytes) (bs : List Backend) (hid : ∀ b
     rw [(mostSpecific_none_iff path bs hid).1 hm] at hmem
     cases hmem
 
+/-- Glue (tie T2): the hand-written `lookup`/`lookupShared` are the decisions regenerated from
+    `persistentStore.LookupBackend` / `lookupSharedBackend`, applied to the most specific match
+    among the user's (resp. the allUsers) backends and to the liveness test.  A change such as
+    "fall back to the shared backends when the user's own match is not live" breaks this. -/
+theorem gen_lookupShared_eq (s : Store) (path : Bytes) (now : Int) :
+    lookupShared s path now =
+      store_lookupSharedBackend false (mostSpecific path (ofUser s store_sharedBackendUser)) (fun b => live s b now) none := by
+  unfold lookupShared store_lookupSharedBackend
+  cases mostSpecific path (ofUser s store_sharedBackendUser) <;> simp [Id.run, pure] <;> split <;> rfl
+
+theorem gen_lookup_eq (s : Store) (user path : Bytes) (now : Int) :
+    lookup s user path now =
+      store_LookupBackend false (mostSpecific path (ofUser s user)) (fun b => live s b now) (lookupShared s path now) := by
+  unfold lookup store_LookupBackend
+  cases mostSpecific path (ofUser s user) <;> simp [Id.run, pure] <;> split <;> rfl
+
+/-- a datastore error while listing the backends is a 404, never a guess -/
+theorem query_error_routes_nowhere (m : Option Bytes) (lv : Bytes → Bool) (sh : Option Bytes) :
+    store_LookupBackend true m lv sh = none ∧ store_lookupSharedBackend true m lv sh = none := by
+  simp [store_LookupBackend, store_lookupSharedBackend, Id.run, pure]
+
 /-- a user's own match always takes precedence: shared backends are not consulted -/
 theorem user_before_shared (s : Store) (user path : Bytes) (now : Int) (b : Bytes)
     (h : mostSpecific path (ofUser s user) = some b) :
